@@ -11,6 +11,18 @@ Import ListNotations.
 Require Import DV.Common.Base.
 Open Scope nat_scope.
 
+(* ------------------------------------------------------------------ repair switches *)
+(* One boolean per defect of tk.py that has a small upstream repair.  `false` selects the
+   pinned (defective) behaviour, `true` the repaired one.  The record is decoded from the
+   wire program (TkProg.dec_fixes); the harness table FIXED in harness/props/c13.py says
+   which repairs the implementation under test contains. *)
+Record fixes := FX { fx10 : bool; fx18 : bool; fx31 : bool; fx32 : bool; fx33 : bool; fx34 : bool }.
+Definition pinned : fixes := FX false false false false false false.
+Definition repaired : fixes := FX true true true true true true.
+(* the classical effect post-processed for discarded bits by the F31 repair:
+   ClassicalGate('discard', n, 0, 2 ** n * [1]) *)
+Definition discard_id : Z := 8.
+
 (* ------------------------------------------------------------------ wires *)
 Inductive wty := WBit | WQubit.
 Definition wty_eqb (a b : wty) : bool :=
@@ -299,36 +311,39 @@ Fixpoint measure_override (t : tkc) (bits qubits : list nat) (boff qoff j n : na
   end.
 
 (* to_tk.measure_qubits, main loop.  bras = Some bitstring for a Bra *)
-Fixpoint measure_loop (t : tkc) (bits qubits : list nat) (bras : option (list bool))
+Fixpoint measure_loop (fx : fixes) (t : tkc) (bits qubits : list nat) (bras : option (list bool))
          (boff qoff j n : nat) : res (tkc * list nat) :=
   match n with
   | O => Ok (t, bits)
   | S n' =>
       let ib := t_nb t in
       do iq <- nth_res qubits (qoff + j);
-      (* DEFECT F10 (bug-compatible): offset = len(bits), not bit_offset + j *)
-      do t1 <- tk_add_bit t (match bras with None => Some (length bits) | Some _ => None end);
+      (* DEFECT F10 (pinned): offset = len(bits), not bit_offset + j *)
+      do t1 <- tk_add_bit t (match bras with
+                             | None => Some (if fx10 fx then boff + j else length bits)
+                             | Some _ => None end);
       let t2 := add_cmd t1 (Cmd op_Measure None [iq] [ib]) in
       match bras with
       | Some bs =>
           do v <- nth_res bs j;
           let t3 := TK (t_nq t2) (t_nb t2) (t_cmds t2) (ps_set (t_psel t2) ib v) (t_scal t2) (t_pp t2) in
-          measure_loop t3 bits qubits bras boff qoff (S j) n'
+          measure_loop fx t3 bits qubits bras boff qoff (S j) n'
       | None =>
-          measure_loop t2 (insert_at bits (boff + j) ib) qubits bras boff qoff (S j) n'
+          measure_loop fx t2 (insert_at bits (boff + j) ib) qubits bras boff qoff (S j) n'
       end
   end.
 
 (* to_tk.swap(i, j, unit_factory): three renamings through the unit ('tmp', 0) *)
 Definition swap_qubits (t : tkc) (i j : nat) : tkc :=
   set_cmds t (map (map_q (transpose i j)) (t_cmds t)).
-Definition swap_bits (t : tkc) (i j : nat) : tkc :=
+Definition swap_bits (fx : fixes) (t : tkc) (i j : nat) : tkc :=
   (* rename_units looks at old.index[0], and Bit('tmp', 0).index[0] = 0:
-     DEFECT F32 (bug-compatible): the third renaming {tmp: Bit(j)} moves a
-     post-selection recorded for bit 0 to bit j *)
+     DEFECT F32 (pinned): the third renaming {tmp: Bit(j)} moves a post-selection
+     recorded for bit 0 to bit j.  Repaired: only bits of register 'c' are looked up,
+     so the renaming of the temporary unit leaves post_selection alone. *)
   let ps1 := ps_rename (t_psel t) [(i, 0)] in
   let ps2 := ps_rename ps1 [(j, i)] in
-  let ps3 := ps_rename ps2 [(0, j)] in
+  let ps3 := if fx32 fx then ps2 else ps_rename ps2 [(0, j)] in
   TK (t_nq t) (t_nb t) (map (map_b (transpose i j)) (t_cmds t)) ps3 (t_scal t) (t_pp t).
 
 (* to_tk.add_gate *)
@@ -345,7 +360,7 @@ Fixpoint index_range (regs : list nat) (off n : nat) : res (list nat) :=
 Definition set_pp (t : tkc) (p : ppd) : tkc := TK (t_nq t) (t_nb t) (t_cmds t) (t_psel t) (t_scal t) p.
 
 (* one iteration of `for left, box, _ in circuit.layers` *)
-Definition to_tk_step (scan : list wty) (s : st) (l : layer) : res st :=
+Definition to_tk_step (fx : fixes) (scan : list wty) (s : st) (l : layer) : res st :=
   let '(b, off) := l in
   let left := firstn off scan in
   let qoff := countq left in
@@ -358,18 +373,24 @@ Definition to_tk_step (scan : list wty) (s : st) (l : layer) : res st :=
       else prepare_bits s (length bs) boff
   | BMeasure n destr true =>
       do t' <- measure_override t (s_bits s) (s_qubits s) boff qoff 0 n;
-      (* DEFECT F34 (bug-compatible): `return bits, qubits` even when destructive *)
-      Ok (ST t' (s_bits s) (s_qubits s))
+      (* DEFECT F34 (pinned): `return bits, qubits` even when destructive *)
+      Ok (ST t' (s_bits s)
+             (if fx34 fx && destr then remove_range (s_qubits s) qoff n else s_qubits s))
   | BMeasure n destr false =>
-      do tb <- measure_loop t (s_bits s) (s_qubits s) None boff qoff 0 n;
+      do tb <- measure_loop fx t (s_bits s) (s_qubits s) None boff qoff 0 n;
       Ok (ST (fst tb) (snd tb)
              (if destr then remove_range (s_qubits s) qoff n else s_qubits s))
   | BBra bs =>
-      do tb <- measure_loop t (s_bits s) (s_qubits s) (Some bs) boff qoff 0 (length bs);
+      do tb <- measure_loop fx t (s_bits s) (s_qubits s) (Some bs) boff qoff 0 (length bs);
       Ok (ST (fst tb) (snd tb) (remove_range (s_qubits s) qoff (length bs)))
   | BDiscard d =>
-      (* DEFECT F31 (bug-compatible): discarded bits stay in post_processing *)
-      Ok (ST t (remove_range (s_bits s) boff (countb d)) (remove_range (s_qubits s) qoff (countq d)))
+      (* DEFECT F31 (pinned): discarded bits stay in post_processing.  Repaired:
+         `if box.dom.count(bit): post_process(Id(bit ** off) @ discard @ right)` *)
+      do p <- (if fx31 fx && (0 <? countb d)
+               then pp_post_process (t_pp t) boff (PClass discard_id (countb d) 0)
+               else Ok (t_pp t));
+      Ok (ST (set_pp t p) (remove_range (s_bits s) boff (countb d))
+             (remove_range (s_qubits s) qoff (countq d)))
   | BSwap WQubit WQubit =>
       do i <- nth_res (s_qubits s) qoff;
       do j <- nth_res (s_qubits s) (S qoff);
@@ -382,7 +403,7 @@ Definition to_tk_step (scan : list wty) (s : st) (l : layer) : res st :=
       | [] =>
           do i <- nth_res (s_bits s) boff;
           do j <- nth_res (s_bits s) (S boff);
-          Ok (ST (swap_bits t i j) (s_bits s) (s_qubits s))
+          Ok (ST (swap_bits fx t i j) (s_bits s) (s_qubits s))
       end
   | BSwap _ _ => Ok s
   | BScalar id mixed =>
@@ -401,19 +422,19 @@ Definition to_tk_step (scan : list wty) (s : st) (l : layer) : res st :=
   | BOther _ _ _ => Err NotImplementedError
   end.
 
-Fixpoint to_tk_layers (scan : list wty) (s : st) (ls : list layer) : res st :=
+Fixpoint to_tk_layers (fx : fixes) (scan : list wty) (s : st) (ls : list layer) : res st :=
   match ls with
   | [] => Ok s
-  | l :: ls' => do s' <- to_tk_step scan s l; to_tk_layers (step_ty scan l) s' ls'
+  | l :: ls' => do s' <- to_tk_step fx scan s l; to_tk_layers fx (step_ty scan l) s' ls'
   end.
 
 Definition tk_empty : tkc := TK 0 0 [] [] [] (PP 0 0 []).
 Definition st0 : st := ST tk_empty [] [].
 
 (* tk.py to_tk *)
-Definition to_tk_state (c : circuit) : res st :=
-  let c' := prep c in to_tk_layers (c_dom c') st0 (c_layers c').
-Definition to_tk (c : circuit) : res tkc := do s <- to_tk_state c; Ok (s_tk s).
+Definition to_tk_state (fx : fixes) (c : circuit) : res st :=
+  let c' := prep c in to_tk_layers fx (c_dom c') st0 (c_layers c').
+Definition to_tk (fx : fixes) (c : circuit) : res tkc := do s <- to_tk_state fx c; Ok (s_tk s).
 
 (* ------------------------------------------------------------------ from_tk *)
 Definition dagger_swaps (l : list (wty * wty * nat)) : list (wty * wty * nat) :=
@@ -427,7 +448,7 @@ Definition ty_eqb := list_eqb wty_eqb.
    check `swaps.cod == left @ box.dom @ right` with left = swaps.cod[:offset] and
    right = swaps.cod[offset + len(box.dom):] is, for a non-empty box.dom, the same as
    `layer_ok swaps.cod (box, offset)`. *)
-Fixpoint mua_loop (cod : list wty) (offset : nat) (acc : list (wty * wty * nat))
+Fixpoint mua_loop (fx : fixes) (cod : list wty) (offset : nat) (acc : list (wty * wty * nat))
          (qs : list nat) (i : nat) : nat * list wty * list (wty * wty * nat) :=
   match qs with
   | [] => (offset, cod, acc)
@@ -438,15 +459,17 @@ Fixpoint mua_loop (cod : list wty) (offset : nat) (acc : list (wty * wty * nat))
         let cod' := firstn source cod ++ slice cod (S source) target ++ slice cod source (S source)
                     ++ skipn target cod in
         let offset' := if source <=? offset then offset - 1 else offset in
-        mua_loop cod' offset' (acc ++ shift_swaps (length (firstn source cod)) sw) qs' (S i)
+        mua_loop fx cod' offset' (acc ++ shift_swaps (length (firstn source cod)) sw) qs' (S i)
       else if target <? source then
-        (* DEFECT F33 (bug-compatible): moves the wire at `target` to the far right
-           instead of bringing the wire at `source` to `target` *)
-        let sw := swap_boxes (slice cod target (S target)) (slice cod (S target) (S source)) in
-        let cod' := firstn target cod ++ slice cod (S target) (S source) ++ slice cod target (S target)
+        (* DEFECT F33 (pinned): moves the wire at `target` to the far right instead of
+           bringing the wire at `source` to `target`.  Repaired:
+           Id.swap(cod[target:source], cod[source:source + 1]) *)
+        let mid := if fx33 fx then source else S target in
+        let sw := swap_boxes (slice cod target mid) (slice cod mid (S source)) in
+        let cod' := firstn target cod ++ slice cod mid (S source) ++ slice cod target mid
                     ++ skipn (S source) cod in
-        mua_loop cod' offset (acc ++ shift_swaps (length (firstn target cod)) sw) qs' (S i)
-      else mua_loop cod offset acc qs' (S i)
+        mua_loop fx cod' offset (acc ++ shift_swaps (length (firstn target cod)) sw) qs' (S i)
+      else mua_loop fx cod offset acc qs' (S i)
   end.
 
 Definition from_tk_box (c : cmd) : res box :=
@@ -463,17 +486,20 @@ Record ftk := FTK { f_layers : list layer; f_bras : list (nat * bool) }.
 
 (* one iteration of `for tk_gate in tk_circuit.get_commands()`;
    cod is qubit ** n_qubits @ bit ** n_bits throughout *)
-Definition from_tk_cmd (nq nb : nat) (psel : list (nat * bool)) (cod : list wty) (f : ftk) (c : cmd)
+Definition from_tk_cmd (fx : fixes) (nq nb : nat) (psel : list (nat * bool)) (cod : list wty) (f : ftk) (c : cmd)
   : res ftk :=
   if (c_op c =? op_Measure)%Z then
     do offset <- nth_res (c_qs c) 0;
-    do bi <- nth_res (c_bs c) 0;
-    match ps_lookup psel bi with
+    do bi0 <- nth_res (c_bs c) 0;
+    match ps_lookup psel bi0 with
     | Some v => Ok (FTK (f_layers f) (ps_set (f_bras f) offset v))
     | None =>
+        (* DEFECT F18 (pinned): bit_index is the raw tket index although the bit register
+           has been shrunk by the post-selected bits.  Repaired:
+           bit_index -= len([i for i in post_selection if i < bit_index]) *)
+        let bi := if fx18 fx
+                  then bi0 - length (filter (fun kv => fst kv <? bi0) psel) else bi0 in
         let left := slice cod (S offset) (nq + bi) in
-        (* DEFECT F18 (bug-compatible): bit_index is the raw tket index although the
-           bit register has been shrunk by the post-selected bits *)
         let right := slice (skipn nq cod) bi (S bi) in
         let sdom := firstn (S offset) cod ++ left ++ right ++ skipn (nq + bi + 1) cod in
         let scod := firstn (S offset) cod ++ right ++ left ++ skipn (nq + bi + 1) cod in
@@ -488,17 +514,17 @@ Definition from_tk_cmd (nq nb : nat) (psel : list (nat * bool)) (cod : list wty)
   else
     do b <- from_tk_box c;
     do q0 <- nth_res (c_qs c) 0;
-    let '(offset, scod, sw) := mua_loop cod q0 [] (tl (c_qs c)) 0 in
+    let '(offset, scod, sw) := mua_loop fx cod q0 [] (tl (c_qs c)) 0 in
     if negb (layer_ok scod (b, offset))            (* swaps.cod == left @ box.dom @ right *)
     then Err AxiomError
     else Ok (FTK (f_layers f ++ swaps_layers sw ++ [(b, offset)] ++ swaps_layers (dagger_swaps sw))
                  (f_bras f)).
 
-Fixpoint from_tk_cmds (nq nb : nat) (psel : list (nat * bool)) (cod : list wty) (f : ftk)
+Fixpoint from_tk_cmds (fx : fixes) (nq nb : nat) (psel : list (nat * bool)) (cod : list wty) (f : ftk)
          (cs : list cmd) : res ftk :=
   match cs with
   | [] => Ok f
-  | c :: cs' => do f' <- from_tk_cmd nq nb psel cod f c; from_tk_cmds nq nb psel cod f' cs'
+  | c :: cs' => do f' <- from_tk_cmd fx nq nb psel cod f c; from_tk_cmds fx nq nb psel cod f' cs'
   end.
 
 Fixpoint ket_layers (n k : nat) : list layer :=
@@ -530,12 +556,12 @@ Definition pbox_to_box (p : pbox) : box :=
 
 (* tk.py from_tk.  scalar_id = None when tk_circuit.scalar == 1.  The command list
    is the one `get_commands()` returns. *)
-Definition from_tk (t : tkc) (scalar_id : option Z) : res circuit :=
+Definition from_tk (fx : fixes) (t : tkc) (scalar_id : option Z) : res circuit :=
   let nb := t_nb t - length (t_psel t) in
   let nq := t_nq t in
   let cod := rep nq WQubit ++ rep nb WBit in
   let init := ket_layers nq 0 ++ bits_layers nb nq in
-  do f <- from_tk_cmds nq nb (t_psel t) cod (FTK init []) (t_cmds t);
+  do f <- from_tk_cmds fx nq nb (t_psel t) cod (FTK init []) (t_cmds t);
   let fin := final_layers cod (f_bras f) 0 0 in
   let cod1 := cod_of cod fin in
   let sc := match scalar_id with Some id => [(BScalar id true, length cod1)] | None => [] end in
@@ -745,17 +771,20 @@ Definition fl0 := FL false false false false false false false.
 Definition has_key (ps : list (nat * bool)) (k : nat) : bool :=
   match ps_lookup ps k with Some _ => true | None => false end.
 
-Definition flags_step (scan : list wty) (s : st) (f : flags) (l : layer) : flags :=
+Definition flags_step (fx : fixes) (scan : list wty) (s : st) (f : flags) (l : layer) : flags :=
   let '(b, off) := l in
   let boff := countb (firstn off scan) in
   let t := s_tk s in
   match b with
   | BMeasure n _ false =>
       (* some measured bit is inserted to the left of an existing bit *)
-      if (0 <? n) && (boff <? length (s_bits s))
+      if negb (fx10 fx) && (0 <? n) && (boff <? length (s_bits s))
       then FL true (fl_f30 f) (fl_f31 f) (fl_f32 f) (fl_f34 f) (fl_over f) (fl_arity f) else f
   | BMeasure n destr true =>
-      FL (fl_f10 f) (fl_f30 f) (fl_f31 f) (fl_f32 f) (fl_f34 f || destr) true (fl_arity f)
+      (* F37: a bit is overridden after classical post-processing started *)
+      FL (fl_f10 f) (fl_f30 f) (fl_f31 f) (fl_f32 f) (fl_f34 f || (negb (fx34 fx) && destr))
+         (fl_over f || ((0 <? n) && match pp_boxes (t_pp t) with [] => false | _ => true end))
+         (fl_arity f)
   | BBits bs false =>
       (* a bit is prepared below a tket bit that is not post-selected *)
       match prep_start (s_bits s) (t_nb t) boff with
@@ -766,11 +795,11 @@ Definition flags_step (scan : list wty) (s : st) (f : flags) (l : layer) : flags
       | Err _ => f
       end
   | BDiscard d =>
-      if 0 <? countb d
+      if negb (fx31 fx) && (0 <? countb d)
       then FL (fl_f10 f) (fl_f30 f) true (fl_f32 f) (fl_f34 f) (fl_over f) (fl_arity f) else f
   | BSwap WBit WBit =>
       match pp_boxes (t_pp t) with
-      | [] => if has_key (t_psel t) 0
+      | [] => if negb (fx32 fx) && has_key (t_psel t) 0
               then FL (fl_f10 f) (fl_f30 f) (fl_f31 f) true (fl_f34 f) (fl_over f) (fl_arity f) else f
       | _ => f
       end
@@ -783,17 +812,17 @@ Definition flags_step (scan : list wty) (s : st) (f : flags) (l : layer) : flags
   | _ => f
   end.
 
-Fixpoint flags_layers (scan : list wty) (s : st) (f : flags) (ls : list layer) : flags :=
+Fixpoint flags_layers (fx : fixes) (scan : list wty) (s : st) (f : flags) (ls : list layer) : flags :=
   match ls with
   | [] => f
   | l :: ls' =>
-      match to_tk_step scan s l with
-      | Ok s' => flags_layers (step_ty scan l) s' (flags_step scan s f l) ls'
-      | Err _ => flags_step scan s f l
+      match to_tk_step fx scan s l with
+      | Ok s' => flags_layers fx (step_ty scan l) s' (flags_step fx scan s f l) ls'
+      | Err _ => flags_step fx scan s f l
       end
   end.
-Definition to_tk_flags (c : circuit) : flags :=
-  let c' := prep c in flags_layers (c_dom c') st0 fl0 (c_layers c').
+Definition to_tk_flags (fx : fixes) (c : circuit) : flags :=
+  let c' := prep c in flags_layers fx (c_dom c') st0 fl0 (c_layers c').
 
 (* from_tk side: the trace of the imported circuit against the tket commands *)
 Definition from_tk_trace_ok (t : tkc) (c : circuit) : bool :=
@@ -822,7 +851,8 @@ Definition from_tk_routing_ok (t : tkc) (c : circuit) : bool := sem_eqb (dsem c)
 
 (* trigger of F18: a measurement that is not post-selected writes a bit whose raw
    index lies above a post-selected bit *)
-Definition f18_trigger (t : tkc) : bool :=
+Definition f18_trigger (fx : fixes) (t : tkc) : bool :=
+  negb (fx18 fx) &&
   existsb (fun c => (c_op c =? op_Measure)%Z &&
                     match c_bs c with
                     | [bi] => negb (has_key (t_psel t) bi) &&
@@ -831,7 +861,8 @@ Definition f18_trigger (t : tkc) : bool :=
                     end) (t_cmds t).
 (* trigger of F33: a two-qubit command whose second qubit lies three or more places
    to the right of the first *)
-Definition f33_trigger (t : tkc) : bool :=
+Definition f33_trigger (fx : fixes) (t : tkc) : bool :=
+  negb (fx33 fx) &&
   existsb (fun c => match c_qs c with
                     | [a; b] => a + 2 <? b
                     | _ => false
